@@ -19,7 +19,7 @@ func init() {
 		ID: "C03", Level: "exploration", Primary: "cases", EvalCount: "requests_routed",
 		Rule: "route tables = every sequence of up to k routes (k=2 quick, 3 thorough) over a 15-spec alphabet (bind; search with base in {unset,dc=a} x filter in {unset,(cn=x)} x scope in {unset,2}; " +
 			"extended A/B/StartTLS-name; modify; add; delete) x {no default, default, default registered twice} x {no unbind route, unbind registered twice}, plus random tables up to length 8 with case variants and scope 1; " +
-			"each table is served on a fresh connection the full 34-request alphabet (bind; search over 3 bases x 3 filters x 3 scopes; extended A/B/C; modify; add; delete) plus Unbind, all pipelined; every fifth table is served over a TLS listener. " +
+			"each table is served on a fresh connection the full 34-request alphabet (bind; search over 3 bases x 3 filters x 3 scopes; extended A/B/C; modify; add; delete) plus Unbind, all pipelined; every fifth table is served over a TLS listener; in every fifth table the route handlers (except those of StartTLS-named routes, which run on the read loop) panic right after they have answered. " +
 			"Oracle: 15-line reference model (first matching route, else last-registered default, else built-in refusal). distinct_nontrivial = distinct (route-table signature, request, outcome) triples observed",
 		Assume: []string{"re-registering the default or unbind route replaces the earlier registration (last registration wins)"},
 		Phases: func(tier string, seed int64) []Phase {
